@@ -4,6 +4,7 @@ use crate::batch::{CheckSpec, Tier};
 use crate::exec::{run_case, Case, CaseResult, Engine};
 use crate::gen::{gen_conc, gen_hist, ConcProfile, Profile, BASE_QUICK, BASE_THOROUGH, QUICK, THOROUGH};
 use crate::rng::Rng;
+use crate::plan::Op;
 use crate::sched::{SchedSpec, Strategy};
 use serde_json::json;
 use std::collections::BTreeMap;
@@ -27,6 +28,7 @@ pub fn exec_case(case: &Case) -> CaseResult {
         Engine::Conc => exec_conc(case),
         Engine::Crash => run_case(case, crate::crash::body),
         Engine::LogSim => run_case(case, crate::logsim::body),
+        Engine::IoFault => exec_iofault(case),
         _ => unimplemented!("engine {:?}", case.engine),
     }
 }
@@ -115,6 +117,142 @@ fn hist_spec(prop: &'static str, profile: Profile, rule: &'static str, probes: &
         narrow: None,
         exhaustive: false,
         extra: json!({"engine": "hist: 1 client task + the real background compaction thread on SimFs under SimScheduler"}),
+    }
+}
+
+/// C08: number the filesystem calls of the plan with a fault-free run, then re-execute the same
+/// plan and scheduler seed once per (position, mode) with that call failing.
+fn exec_iofault(case: &Case) -> CaseResult {
+    use crate::simfs::{CallKind, FaultMode, FaultSpec};
+    if case.fault.is_some() {
+        let mut r = run_case(case, crate::iofault::body);
+        for f in r.findings.iter_mut() {
+            f.fault = case.fault.clone();
+        }
+        r.stats.bump("faulted_runs", 1);
+        return r;
+    }
+    let mut base = run_case(case, crate::iofault::body);
+    if !base.completed || base.findings.iter().any(|f| f.concerns("C08")) {
+        // a fault-free run must be clean; whatever it found is reported as is
+        return base;
+    }
+    let sites = std::mem::take(&mut base.stats.call_sites);
+    let n = sites.len();
+    let max_points = case.params.get("max_points").copied().unwrap_or(40) as usize;
+    let mut rng = Rng::new(crate::rng::mix2(case.run_seed, 0x10FA));
+    let mut positions: Vec<usize> = (0..n).collect();
+    if n > max_points {
+        // stratify: first occurrence(s) of every (kind, class) pair, then a uniform sample
+        let mut seen: BTreeMap<(CallKind, crate::simfs::FileClass), u32> = BTreeMap::new();
+        let mut keep: Vec<usize> = vec![];
+        let mut rest: Vec<usize> = vec![];
+        for (i, s) in sites.iter().enumerate() {
+            let c = seen.entry(*s).or_insert(0);
+            *c += 1;
+            if *c <= 2 {
+                keep.push(i);
+            } else {
+                rest.push(i);
+            }
+        }
+        rng.shuffle(&mut keep);
+        keep.truncate(max_points * 2 / 3);
+        rng.shuffle(&mut rest);
+        rest.truncate(max_points.saturating_sub(keep.len()));
+        keep.extend(rest);
+        keep.sort_unstable();
+        positions = keep;
+    } else {
+        base.stats.bump("base_runs_enumerated_completely", 1);
+    }
+    let mut total = base.clone();
+    total.stats.bump("fault_positions_in_base_runs", n as u64);
+    for p in positions {
+        let modes: Vec<FaultMode> = if sites[p].0 == CallKind::Write { vec![FaultMode::Transient, FaultMode::Sticky, FaultMode::PartialWrite] } else { vec![FaultMode::Transient, FaultMode::Sticky] };
+        for mode in modes {
+            let mut c = case.clone();
+            c.fault = Some(FaultSpec { at_call: p as u64, mode, keep: rng.below(64) });
+            let r = run_case(&c, crate::iofault::body);
+            total.stats.absorb(&r.stats);
+            total.stats.bump("faulted_runs", 1);
+            for mut f in r.findings {
+                // hangs under a persistent fault are not C09 violations (the filesystem makes no progress)
+                if mode == FaultMode::Sticky && f.concerns("C09") {
+                    total.stats.bump("hang_or_panic_under_sticky_fault", 1);
+                    continue;
+                }
+                if mode != FaultMode::Sticky && (f.class == "deadlock" || f.class == "bg-panic") {
+                    f.properties.push("C08".into());
+                }
+                f.fault = c.fault.clone();
+                f.op_index = Some(p);
+                f.detail = format!("[{:?} fault at call {} = {:?} on {}] {}", mode, p, sites[p].0, crate::exec::class_name(sites[p].1), f.detail);
+                total.findings.push(f);
+            }
+            if total.findings.iter().filter(|f| f.concerns("C08")).count() >= 3 {
+                return total;
+            }
+        }
+    }
+    total
+}
+
+fn iofault_case(run_seed: u64, tier: Tier) -> Case {
+    let mut rng = Rng::new(run_seed);
+    let size = if tier == Tier::Quick { crate::gen::Size { min_ops: 4, max_ops: 40, max_keys: 12, max_reopens: 1 } } else { BASE_THOROUGH };
+    let mut plan = gen_hist(&mut rng, Profile::Base, size);
+    // reads between the writes so that "Ok write not visible" can be observed
+    let mut ops = vec![];
+    let mut prng = rng.fork("reads");
+    for op in plan.ops.drain(..) {
+        let k = match &op {
+            Op::Put { k, .. } | Op::Delete { k } => Some(*k),
+            Op::Batch { items } => items.first().map(|(k, _)| *k),
+            _ => None,
+        };
+        ops.push(op);
+        if let Some(k) = k {
+            if prng.chance(1, 2) {
+                ops.push(Op::Get { k });
+            }
+        }
+    }
+    plan.ops = ops;
+    let mut srng = rng.fork("sched");
+    // low-preemption schedules: the fault space here is the failing call
+    let sched = SchedSpec { strategy: Strategy::Sticky { q_permille: *srng.pick(&[1000u32, 990, 900]) }, seed: srng.next_u64() };
+    let mut params = BTreeMap::new();
+    params.insert("max_points".to_string(), if tier == Tier::Quick { 30 } else { 100_000 });
+    Case { engine: Engine::IoFault, run_seed, plan, sched, schedule: None, fault: None, params, image: None, max_steps: Some(3_000_000), log_plan: None }
+}
+
+fn iofault_spec() -> CheckSpec {
+    CheckSpec {
+        prop: "C08",
+        level: "fault_enumeration",
+        rule: "one evaluation = one faulted run: a plan (4-40 ops quick, -150 thorough: puts, deletes, batches, gets after writes, flushes, compact_range, clean reopen) is first executed without faults to number its filesystem calls (all kinds: mkdir, list, open, read, len/size, create, write, rename, remove, lock), then re-executed with the same scheduler seed once per (call position, mode) with mode in {transient: that call fails, sticky: that call and all later ones fail, partial write: a failing write leaves a prefix behind (write calls only)}. Quick tier: <=30 positions per base run, stratified by (call kind, file class); thorough: all positions. Oracle during the run: every call returns Ok or Err (a panic is a violation); a get that returns Ok must return the value of the last Ok write or of a failed write issued after it. After disarming, closing and reopening: every key must be explainable by the Ok writes plus a subset of the failed writes, failed put-only batches all-or-nothing, and the reopen must succeed if anything was acknowledged. distinct_nontrivial = distinct coverage signatures (fault site = mode x call kind x file class, shapes).",
+        assumptions: vec![
+            "one injected failure per run (single position; sticky = persistent from that position)".into(),
+            "no short reads/writes without error, no EINTR: not injected because no listed property speaks about them".into(),
+            "hangs/panics of background work under a sticky (persistent) fault are counted, not reported: C09 is conditional on the filesystem making progress".into(),
+        ],
+        expected_probes: &[],
+        gen: Box::new(|rs, _i, tier| iofault_case(rs, tier)),
+        exec: Box::new(exec_case),
+        evals: Box::new(|r| r.stats.extra.get("faulted_runs").copied().unwrap_or(0).max(1)),
+        runs_quick: 300,
+        runs_thorough: 20_000,
+        wall_quick: 70.0,
+        wall_thorough: 1500.0,
+        shrink_plan: false,
+        narrow: Some(Box::new(|case, f| {
+            let mut c = case.clone();
+            c.fault = Some(f.fault.clone()?);
+            Some(c)
+        })),
+        exhaustive: false,
+        extra: json!({"engine": "iofault: real DB + background thread on SimFs with one armed fault per run"}),
     }
 }
 
@@ -271,6 +409,7 @@ pub fn spec_for(prop: &str) -> Option<CheckSpec> {
         "C05" => conc_spec("C05", ConcProfile::C05, "one evaluation = one simulated concurrent run: 2-5 client tasks x 5-60 operations over 2-8 keys (unique value tags) with 512 B-4 KiB memtables so that rotation, flush and compaction run continuously; schedulers Random / Sticky / PCT(depth 1-4) / Freeze (parks a task at an unlocked_fair exit, filesystem call or hook until the others are blocked or a step budget expires). The invoke/return history (global event sequence numbers) is checked per key against a register model by a memoised WGL search, with the final quiesced state as a last read; phantom reads, reads from the future and write errors are violations. Histories above the checker budget are counted as unchecked, never as violations.", &["freeze_fired", "group_commit_merged_writers"], (8000, 600_000)),
         "C06" => conc_spec("C06", ConcProfile::C06, "one evaluation = one simulated concurrent run in which 1-3 writer tasks each own a row group of 2-8 keys and repeatedly apply one batch writing the same fresh tag to every key of the group (sometimes deleting all, sometimes padded beyond the memtable budget) while 1-2 reader tasks take snapshots / iterators and read whole groups; H4 puts a scheduling point after every single memtable insert, SimFs before and after the WAL append. Oracle: in every snapshot-consistent read all keys of a group carry the same tag.", &["freeze_fired"], (8000, 600_000)),
         "C12" => log_spec(),
+        "C08" => iofault_spec(),
 
         "C02" => crash_spec(
             "C02",
